@@ -1,6 +1,7 @@
 package scen
 
 import (
+	"context"
 	"fmt"
 	"strconv"
 	"strings"
@@ -297,7 +298,11 @@ func (c13) Execute(h *core.History) *core.Outcome {
 			}
 			before := api.Out.Take()
 			api.St.DefineMacros(prog)
+			// macro bodies are evaluated under the state's context: give it a live one, as EvalOne does
+			// (the one left by the previous EvalOne is cancelled)
+			cancelCtx := api.St.SetContext(context.Background(), 0)
 			exp := api.St.ExpandMacros(prog)
+			cancelCtx()
 			if out := api.Out.Take(); out != before {
 				fail(i, "no-evaluation-during-expansion", fmt.Sprintf("expanding %q printed %q", trunc(e.Text, 200), out))
 			}
